@@ -702,7 +702,7 @@ func init() { streams["C11"] = runC11 }
 func runC11(r *Run) {
 	r.Imports = []string{"Model.Depth"}
 	r.Rule("isolated worker processes (64 MB maximum stack, address-space limit, 4 s per case): (include-graph) every include graph over 3 files with 0-2 includes per file, includes placed plainly, inside v-for and inside v-if, entered through Load.Render, Vue.Render and RenderFragment; (cycle-shapes) cycles through slot content, slot fallbacks, layouts and nested named slots; (slot-rings) up to three named slots handed to a layout, to a component, or through a layout to a component, the content of each using any other (every ring, chain and self-reference); (slot-shapes) 11 kinds of supplied slot content (text, element, <template v-html / v-if / v-for / v-text>, wrapper, include) x 6 ways a component uses the slot once, twice or three times x default / named; " +
-		"(wrong-type) 32 directive positions x 39 data values (every kind: nil pointers, typed nil, unexported fields, non-string map keys, functions, channels, panicking Stringer, deep and cyclic structs / maps / slices); (root-data) each value as the root data; (functions) panicking, nil, non-function, wrong-arity, multi-result template functions as filters and calls, and 20 parameter kinds (arrays, pointers to arrays, typed slices, maps, channels, functions, structs, interfaces, narrow numbers, variadic, context-taking) x 25 data kinds; (bytes) spliced, token-soup and random byte strings as template sources and front-matter. " +
+		"(wrong-type) 32 directive positions x 39 data values (every kind: nil pointers, typed nil, unexported fields, non-string map keys, functions, channels, panicking Stringer, deep and cyclic structs / maps / slices); (root-data) each value as the root data; (functions) panicking, nil, non-function, wrong-arity, multi-result template functions as filters and calls, and 20 parameter kinds (arrays, pointers to arrays, typed slices, maps, channels, functions, structs, interfaces, narrow numbers, variadic, context-taking) x 25 data kinds; (bytes) spliced, token-soup and random byte strings as template sources and front-matter; (many-paths) templates with 330 distinct variable paths each, more than the engine's memo of parsed paths holds. " +
 		"Outcome must be ok or error: a panic reaching the caller, a timeout or a dead worker is a violation")
 	id := 0
 	var cases []c11Case
@@ -710,6 +710,16 @@ func runC11(r *Run) {
 	cases = append(cases, c11TypeCases(r, &id)...)
 	cases = append(cases, c11FuncCases(r, &id)...)
 	cases = append(cases, c11ByteCases(r, &id)...)
+	// more distinct variable paths in one process than any bounded memo of parsed paths holds (the engine keeps one of
+	// 256 entries): every lookup still returns
+	for _, form := range []string{"{{ m.v.k%d }}", "{{ m['k%d'].x }}", `<i v-if="m.v.q%d">y</i>`, `<i :title="m.w%d.z">t</i>`} {
+		var sb strings.Builder
+		for i := 0; i < 330; i++ {
+			fmt.Fprintf(&sb, form, i)
+		}
+		id++
+		cases = append(cases, c11Case{ID: id, Family: "many-paths", Entry: "string", Tpl: "<p>" + sb.String() + "</p>", Data: "map"})
+	}
 	res := c11RunAll(r, cases)
 	for _, c := range cases {
 		cr, ok := res[c.ID]
